@@ -221,6 +221,7 @@ let () =
     if pid = "C20" then (List.iter Eventer.monitor_file files; exit 0);
     if List.mem pid ["C04"; "C06"; "C07"; "C09"; "C17"] then begin
       List.iter (fun path ->
+          if Rt.is_rt path then Rt.monitor_file pid path else
           try
             let h = Shared.read path in
             List.iter (fun msg -> Printf.printf "MONITOR %s %s\n" path msg) (Smonitors.monitor pid h);
